@@ -78,13 +78,13 @@ def _plain_kind(tok):
     return "word"
 
 
-def run_both(line, cx, undo=False):
+def run_both(line, cx, undo=False, nonl=False):
     from netconan.ip_anonymization import anonymize_ip_addr
 
     got, exc = guarded(lambda: anonymize_ip_addr(cx["a4"], anonymize_ip_addr(cx["a6"], line, undo), undo))
     if exc is not None:
         return None, None, exc
-    got2, exc = guarded(core.run_io, cx["fu"] if undo else cx["fa"], line + "\n")
+    got2, exc = guarded(core.run_io, cx["fu"] if undo else cx["fa"], line + "\n", nonl)
     if exc is not None:
         return None, None, exc
     return got, got2[:-1] if got2.endswith("\n") else got2, None
@@ -116,7 +116,7 @@ def check_line(case, ev, cx=None):
         elif k == "plain" and _plain_kind(line[i:j]) != "word":
             nt = True
     ev.case(case["line"], nt, sorted(set(classes)) + (["undo-direction"] if undo else []))
-    got, got_io, exc = run_both(line, cx, undo)
+    got, got_io, exc = run_both(line, cx, undo, bool(case.get("nonl")))
     if exc is not None:
         return core.exc_finding(exc, case, "subst/")
     if case.get("both") and cx is not None:
@@ -216,7 +216,7 @@ def _line_case(draw):
         # glue something to a token: exercises the boundary rules with arbitrary characters
         i = draw(st.integers(0, len(line)))
         line = line[:i] + draw(st.text(alphabet=st.sampled_from(list(BOUNDARY) + ["é", "\t", "%", "x", "Z"]), min_size=1, max_size=2)) + line[i:]
-    return {"line": line, "cfg": cfg, "undo": draw(st.integers(0, 3)) == 0, "both": draw(st.integers(0, 3)) == 0}
+    return {"line": line, "cfg": cfg, "undo": draw(st.integers(0, 3)) == 0, "both": draw(st.integers(0, 3)) == 0, "nonl": draw(st.integers(0, 3)) == 0}
 
 
 def t_lines(shard, nshards, seed, ev, known, n=500):
